@@ -12,7 +12,7 @@ EXTENDS StoreModel
 CONSTANTS N, MaxOps
 VARIABLES nops, lastop, pre
 
-mvars == <<g, content, tags, indexed, stray, nops, lastop, pre>>
+mvars == <<g, content, tags, indexed, stray, tagann, nops, lastop, pre>>
 
 Asc(S) ==
   LET RECURSIVE B(_, _)
@@ -32,7 +32,7 @@ Snap == [content |-> content, tags |-> tags, indexed |-> indexed]
 MInit ==
   /\ g \in {u \in Universes : WellFormed(u)}
   /\ content = {} /\ indexed = {} /\ stray = {}
-  /\ tags = [r \in {"t1", "t2"} |-> 0]
+  /\ tags = [r \in {"t1", "t2"} |-> 0] /\ tagann = [r \in {"t1", "t2"} |-> ""]
   /\ nops = 0 /\ lastop = [op |-> "init", n |-> 0, ref |-> ""] /\ pre = [content |-> {}, tags |-> [r \in {"t1", "t2"} |-> 0], indexed |-> {}]
 
 Do(r) ==
@@ -41,7 +41,7 @@ Do(r) ==
      /\ x.res = "ok"                                 \* refused operations change nothing
      /\ content' = x.content /\ tags' = x.tags /\ indexed' = x.indexed /\ stray' = x.stray
   /\ pre' = Snap /\ lastop' = r /\ nops' = nops + 1
-  /\ UNCHANGED g
+  /\ UNCHANGED <<g, tagann>>
 
 MNext == \E n \in 1..N, ref \in {"t1", "t2"}, op \in {"push", "tag", "untag", "delete", "gc"} :
            Do([op |-> op, n |-> n, ref |-> ref])
